@@ -16,7 +16,7 @@ RuleDecorator = TypeVar("RuleDecorator", bound=Callable[..., Any])
 
 _RWS = r"\s+"
 _INTEGER = r"[+-]?[0-9]+"
-_DATE = r"[1-9][0-9]{3}-(?:0[0-9]|1[0-2])-(?:[0-2][0-9]|3[01])"
+_DATE = r"[0-9]{4}-(?:0[0-9]|1[0-2])-(?:[0-2][0-9]|3[01])"
 _TIME = r"(?:[01][0-9]|2[0-3]):[0-5][0-9](:?:[0-5][0-9](?:\.[0-9]{1,12})?)"
 
 # Defines known functions and min/max nr of args:
